@@ -44,6 +44,18 @@ CHECKS.update({
    note="Trusted: p3-commit PolynomialSpace, p3-field. A gadget that does not terminate yields a watchdog exit (inconclusive), not a verdict.", ref="DESIGN.md §3 C20", engine="E4"),
 })
 
+CHECKS.update({
+ "C11": dict(cat="exploration", tech="differential property testing (proptest + exhaustive per-cell enumeration): AIR constraint evaluation on hand-built rows vs the defining relation over the true extension field",
+   text="For every ALU kind (incl. packed Horner k=2..4), Const/Public/Recompose tables and seven Poseidon1/2 table shapes, over 10 field/extension configurations and lanes 1-4, tables are built cell by cell from the documented layouts (valid, one cell perturbed, fully random); the set of rows flagged by the constraint evaluator must equal the set of rows whose relation fails. Every (operand, coefficient) cell is perturbed once per (kind, configuration, lanes, k).",
+   note="Trusted: p3-field extension arithmetic, native permutations, DebugConstraintBuilder evaluation. Bus (cross-table) effects are C04/C09's subject.", ref="DESIGN.md §3 C11", engine="E4"),
+ "C13": dict(cat="exploration", tech="differential property testing (proptest): random symbolic constraint DAGs / generated-program AIRs compiled to circuits vs reference evaluator and the native p3 constraint folder",
+   text="Random symbolic DAGs (all leaf kinds, Arc sharing, base/extension, depth up to 10^4) are compiled with the repo's symbolic compiler and compared node by node with a reference evaluator; generated-program AIRs and the repo's own AIRs go through eval_folded_circuit and are compared with VerifierConstraintFolderWithLookups on the same openings, alpha, selectors and lookup challenges. 1.16M evaluations per quick run.",
+   note="Trusted: p3-air symbolic types, p3-lookup native folder. One listed finding (fold order when an AIR emits extension constraints before base constraints).", ref="DESIGN.md §3 C13", engine="E4"),
+ "C16": dict(cat="fault_enumeration", tech="property-based fault injection (proptest): JSON-path edits of proof metadata + postcard/JSON round trips, native verifier verdicts",
+   text="BatchStarkProofs of random circuits (honest traces and natively rejected forged traces) get 1-2 edits of self-declared metadata (every scalar leaf outside the inner proof, table-list drop/duplicate/swap); an invalid-trace proof must stay rejected, changed field parameters must be rejected, verification must not panic, and postcard/JSON round trips must preserve the verdict.",
+   note="verify_all_tables takes the preprocessed commitment from the proof; binding to a circuit is the caller's comparison (not claimed).", ref="DESIGN.md §3 C16", engine="E2+E3"),
+})
+
 NOT_YET = {}
 
 def main():
